@@ -582,5 +582,5 @@ func runC24(args []string) error {
 				"destination": dest, "num_satoshis": sat, "cltv_expiry": cltv, "channels": jc, "payreq": payreq, "scid": scid, "limit": limit,
 				"request": jsLndReq(q), "send_calls": len(fr.sent), "err": perr != nil})
 	}
-	return cf.Write(*out, 400, map[string]interface{}{"seed": *seed})
+	return cf.Write(*out, 200, map[string]interface{}{"seed": *seed})
 }
